@@ -92,6 +92,11 @@ pub fn enrich(mut b: Built, s: &mut S) -> Built {
     if b.cfg.max_joins.is_none() && s.chance(20) {
         b.cfg.max_joins = Some(3 + s.pick(3));
     }
+    // one of the prelude users (the one logging in as `u2`) is a user from [[users]]: registered
+    // mode, and a source without the `~` - for as long as the session lasts, whatever its nick
+    if b.cfg.users.is_empty() && s.chance(40) {
+        b.cfg.users.push(crate::cfgspec::UserSpec { name: "u2".into(), nick: "cfgnick".into(), password: None, mask: None });
+    }
     b
 }
 
@@ -152,6 +157,11 @@ fn c01_build(cfg: &[u16]) -> Built {
         (K::NewUser, 4),
         (K::CapPost, 4),
     ]);
+    // the sender logging in as `u2` may be a user from [[users]] (a source without `~`, which the
+    // copies must carry also after a change of nick)
+    if s.chance(15) {
+        c.users.push(crate::cfgspec::UserSpec { name: "u2".into(), nick: "cfgnick".into(), password: None, mask: None });
+    }
     Built { cfg: c, prof, prelude_users: users, setup }
 }
 
